@@ -40,6 +40,7 @@ type c11Case struct {
 	Schedules []uint64  `json:"schedules"`
 	Procs     int       `json:"gomaxprocs"`
 	Rebuilt   bool      `json:"rebuilt"` // the concurrent phase runs on an instance whose index was rebuilt from the tape
+	Scenario  string    `json:"scenario,omitempty"`
 }
 
 // what one call observed
@@ -100,6 +101,34 @@ var c11Model = porcupine.Model{
 			} else {
 				n.Content = hist.Bytes(op.Size, 3, op.Seed)
 			}
+		case "open":
+			// Open resolves the path once; what it hands out is a path-based handle
+			n := m.Get(op.Path)
+			if n == nil {
+				want.Err = true
+			} else {
+				want.Kind = n.Kind
+			}
+		case "read":
+			// the content is looked up by path when the handle is read (op.To = kind seen by open)
+			n := m.Get(op.Path)
+			if op.To != "file" || n == nil || n.Kind != "file" {
+				want.Err = true
+			} else {
+				want.Data = string(n.Content)
+			}
+		case "readdir":
+			// a directory handle lists whatever lies below its path at the time of the call
+			n := m.Get(op.Path)
+			if op.To != "dir" {
+				want.Err = true
+			} else if n != nil && n.Kind == "dir" {
+				var names []string
+				for _, c := range m.Children(op.Path) {
+					names = append(names, path.Base(c))
+				}
+				want.Names = strings.Join(names, ",")
+			}
 		case "get":
 			n := m.Get(op.Path)
 			if n == nil || n.Kind != "file" {
@@ -142,7 +171,7 @@ var c11Model = porcupine.Model{
 				for _, c := range m.Children(op.Path) {
 					names = append(names, path.Base(c))
 				}
-				want.Names = strings.Join(names, "\x00")
+				want.Names = strings.Join(names, ",")
 			}
 		}
 		if want != o {
@@ -202,25 +231,37 @@ func c11Exec(fsys *world.World, client int, op c11Op, clock *int64, rec func(c11
 			do("commit", func() c11Out { return c11Out{Err: h.Close() != nil} })
 		}
 	case "get":
-		do("get", func() c11Out {
-			h, err := f.Open(op.Path)
+		var h afero.File
+		kind := ""
+		do("open", func() c11Out {
+			var err error
+			h, err = f.Open(op.Path)
 			if err != nil {
 				return c11Out{Err: true}
 			}
-			defer h.Close()
-			fi, err := h.Stat()
-			if err != nil || fi.IsDir() {
-				return c11Out{Err: true}
+			kind = "file"
+			if fi, err := h.Stat(); err == nil && fi.IsDir() {
+				kind = "dir"
 			}
-			// one Read call with a buffer larger than the file: the stream is consumed
-			// to its end inside the call (finding F-11)
-			buf := make([]byte, fi.Size()+4096)
-			n, err := h.Read(buf)
-			if err != nil && err.Error() != "EOF" {
-				return c11Out{Err: true}
-			}
-			return c11Out{Data: string(buf[:n])}
+			return c11Out{Kind: kind}
 		})
+		if h != nil && hang == nil {
+			op.To = kind
+			do("read", func() c11Out {
+				defer h.Close()
+				if kind != "file" {
+					return c11Out{Err: true}
+				}
+				// one Read call with a buffer larger than any generated content: the stream is
+				// consumed to its end inside the call (finding F-11)
+				buf := make([]byte, 64*1024)
+				n, err := h.Read(buf)
+				if err != nil && err.Error() != "EOF" {
+					return c11Out{Err: true}
+				}
+				return c11Out{Data: string(buf[:n])}
+			})
+		}
 	case "mkdir":
 		do("mkdir", func() c11Out { return c11Out{Err: f.Mkdir(op.Path, os.FileMode(op.Perm)) != nil} })
 	case "mkdirall":
@@ -251,19 +292,32 @@ func c11Exec(fsys *world.World, client int, op c11Op, clock *int64, rec func(c11
 			return c11Out{Kind: "file", Size: fi.Size()}
 		})
 	case "list":
-		do("list", func() c11Out {
-			h, err := f.Open(op.Path)
+		var h afero.File
+		kind := ""
+		do("open", func() c11Out {
+			var err error
+			h, err = f.Open(op.Path)
 			if err != nil {
 				return c11Out{Err: true}
 			}
-			defer h.Close()
-			names, err := h.Readdirnames(-1)
-			if err != nil {
-				return c11Out{Err: true}
+			kind = "file"
+			if fi, err := h.Stat(); err == nil && fi.IsDir() {
+				kind = "dir"
 			}
-			sort.Strings(names)
-			return c11Out{Names: strings.Join(names, "\x00")}
+			return c11Out{Kind: kind}
 		})
+		if h != nil && hang == nil {
+			op.To = kind
+			do("readdir", func() c11Out {
+				defer h.Close()
+				names, err := h.Readdirnames(-1)
+				if err != nil {
+					return c11Out{Err: true}
+				}
+				sort.Strings(names)
+				return c11Out{Names: strings.Join(names, ",")}
+			})
+		}
 	}
 	return hang
 }
@@ -363,7 +417,7 @@ func c11Run(f failer, cfg world.Cfg, c c11Case) {
 				}
 			}
 			sort.Strings(names)
-			recs = append(recs, c11Rec{client: 0, in: c11In{Call: "list", Op: c11Op{Path: d}}, out: c11Out{Names: strings.Join(names, "\x00")}, call: ts, ret: ts + 1})
+			recs = append(recs, c11Rec{client: 0, in: c11In{Call: "list", Op: c11Op{Path: d}}, out: c11Out{Names: strings.Join(names, ",")}, call: ts, ret: ts + 1})
 		}
 		var ops []porcupine.Operation
 		for _, r := range recs {
@@ -403,6 +457,9 @@ func c11Run(f failer, cfg world.Cfg, c c11Case) {
 		os.RemoveAll(dir)
 	}
 	live.S.Class(fmt.Sprintf("clients:%d", len(c.Programs)))
+	if c.Scenario != "" {
+		live.S.Class("scenario:" + c.Scenario)
+	}
 	live.S.Class(fmt.Sprintf("rebuilt-index:%v", c.Rebuilt))
 	live.S.Case(cfg.String(), overlaps >= 1, live.J.Digest(), func() interface{} { return c })
 	live.S.Flush()
@@ -428,7 +485,43 @@ func TestC11(t *testing.T) {
 		if rapid.Bool().Draw(t, "presetup") {
 			c.Setup = append(c.Setup, c11Op{Kind: "mkdir", Path: "/s/d1", Perm: 0755})
 		}
-		for i := 0; i < nclients; i++ {
+		scenario := rapid.SampledFrom([]string{"mixed", "mixed", "replace-while-observed", "tree-while-observed"}).Draw(t, "scenario")
+		if scenario != "mixed" {
+			// one or two owners run multi-record calls (rename onto an existing file, remove/rename of a
+			// populated directory, multi-level MkdirAll) while the other clients keep looking at the paths involved
+			owners := rapid.IntRange(1, 2).Draw(t, "owners")
+			for i := 0; i < nclients; i++ {
+				var prog []c11Op
+				if i < owners {
+					f, g, d := fmt.Sprintf("/s/f%d", i), fmt.Sprintf("/s/g%d", i), fmt.Sprintf("/own%d", i)
+					if scenario == "replace-while-observed" {
+						c.Setup = append(c.Setup, c11Op{Kind: "put", Path: f, Size: 10, Seed: uint64(50 + i)}, c11Op{Kind: "put", Path: g, Size: 20, Seed: uint64(60 + i)})
+						prog = []c11Op{{Kind: "rename", Path: f, To: g}, {Kind: "put", Path: f, Size: 5, Seed: uint64(70 + i)}, {Kind: "rename", Path: f, To: g}}
+					} else {
+						c.Setup = append(c.Setup, c11Op{Kind: "mkdirall", Path: d + "/k/l", Perm: 0755}, c11Op{Kind: "put", Path: d + "/k/x", Size: 9, Seed: uint64(80 + i)})
+						prog = []c11Op{{Kind: "rename", Path: d + "/k", To: d + "/m"}, {Kind: "removeall", Path: d}, {Kind: "mkdirall", Path: d + "/k/l", Perm: 0755}}
+					}
+					prog = prog[:rapid.IntRange(1, len(prog)).Draw(t, "len")]
+				} else {
+					o := rapid.IntRange(0, owners-1).Draw(t, "watch")
+					watch := []string{fmt.Sprintf("/s/f%d", o), fmt.Sprintf("/s/g%d", o), "/s"}
+					if scenario != "replace-while-observed" {
+						d := fmt.Sprintf("/own%d", o)
+						watch = []string{d, d + "/k", d + "/k/l", d + "/k/x", d + "/m", d + "/m/x", "/"}
+					}
+					for k := 0; k < rapid.IntRange(1, 4).Draw(t, "len"); k++ {
+						p := rapid.SampledFrom(watch).Draw(t, "p")
+						kind := rapid.SampledFrom([]string{"stat", "stat", "get", "list"}).Draw(t, "kind")
+						if kind == "list" {
+							p = path.Dir(p)
+						}
+						prog = append(prog, c11Op{Kind: kind, Path: p})
+					}
+				}
+				c.Programs = append(c.Programs, prog)
+			}
+		}
+		for i := 0; i < nclients && scenario == "mixed"; i++ {
 			own := []string{fmt.Sprintf("/s/f%d", i), fmt.Sprintf("/s/g%d", i), fmt.Sprintf("/own%d", i)}
 			any := append(append([]string{"/s/base", "/", "/missing"}, shared...), own...)
 			// other clients' files are observed, never written or removed
@@ -475,6 +568,7 @@ func TestC11(t *testing.T) {
 			}
 			c.Programs = append(c.Programs, prog)
 		}
+		c.Scenario = scenario
 		ns := *schedules
 		for i := 0; i < ns; i++ {
 			c.Schedules = append(c.Schedules, rapid.Uint64Range(1, 1<<40).Draw(t, "schedule"))
